@@ -12,7 +12,7 @@ EXTENDS Shake, Json
 (* exports "x" if ownX) and a statement part that may use "x" or the        *)
 (* imported bindings.  (effect, removable) ranges over Cells.               *)
 
-CONSTANTS N, EdgeKinds, Cells, DeclCells, Back, AnnotateSets, Owns, UseKinds, DropKinds
+CONSTANTS N, EdgeKinds, Cells, DeclCells, Back, AnnotateSets, Owns, UseKinds, DropKinds, CjsSets
 
 \* an edge kind = a statement-level component and / or a lazy component: the
 \* combined kinds (`export {x} from` / `export *` / `import {x}` of a file that
@@ -103,8 +103,8 @@ PickFile ==
 
 PickFlags ==
   /\ phase = N + 1
-  /\ \E se \in AnnotateSets, ts \in BOOLEAN :
-       G' = [files |-> 1..N, entry |-> {1}, seFalse |-> se, cjs |-> {}, ts |-> ts, ignoreAnn |-> FALSE,
+  /\ \E se \in AnnotateSets, ts \in BOOLEAN, cj \in CjsSets :
+       G' = [files |-> 1..N, entry |-> {1}, seFalse |-> se, cjs |-> cj, ts |-> ts, ignoreAnn |-> FALSE,
              part |-> [f \in 1..N |-> FileParts(EdgeFn, f, ch[f].own, ch[f].c1, ch[f].c2, ch[f].u2)],
              imp |-> [f \in 1..N |-> FileImp(EdgeFn, f)],
              exp |-> [f \in 1..N |-> FileExp(EdgeFn, f, ch[f].own)]]
@@ -143,7 +143,7 @@ InvPassStmtsLive == Done => (PassStmtsLiveOn(G, LV) /\ ExportPassStmtsLiveOn(G, 
 InvExportsInitialised == Done => ExportsInitialisedOn(G, LV)
 \* necessity report (drop configuration): one CASE line per graph on which some mutant fails
 NecessityReport ==
-  Done => (NEC = {} \/ PrintT(<<"CASE", ToJson([rec |-> "nec", kinds |-> NEC, edges |-> edges, se |-> G.seFalse, ts |-> G.ts])>>))
+  Done => (NEC = {} \/ PrintT(<<"CASE", ToJson([rec |-> "nec", kinds |-> NEC, edges |-> edges, se |-> G.seFalse, cjs |-> G.cjs, ts |-> G.ts])>>))
 InvAnnotationMonotone == Done => (AnnotationMonotoneOn(DG, LV) /\ ModeMonotoneOn(DG, LV))
 \* what must be kept is kept by the real classifier whenever it is sound
 InvMustKeepLive == (Done /\ ClassifierSound(G)) => MustKeepParts(G) \subseteq LV.parts
@@ -156,6 +156,13 @@ AllKinds == {"none", "bare", "named", "reexp", "star", "require", "dynamic",
 StaticKinds == {"none", "bare", "named", "reexp"}
 QuickKinds == {"none", "bare", "named", "reexp", "dynamic", "reexp_dynamic", "named_require", "star_dynamic"}
 NoDrop == {}
+\* CommonJS files (wrapped in __commonJS, no static exports): none, or the last file
+CjsNone == {{}}
+CjsLast == {{}, {N}}
+\* the chain family of the 3-file necessity configuration
+ChainKinds == {"none", "reexp", "reexp_dynamic", "dynamic"}
+PureOnly == {<<FALSE, TRUE>>}
+NoUses == {"none"}
 AllDrops == EdgeKindNames
 TinyKinds == {"none", "bare", "named"}
 AnnotNonEntry == SUBSET (2..N)
